@@ -17,7 +17,7 @@ from . import wire as W
 class Policy:
     def __init__(self, session="accept", large_fo="accept", std_fo="accept", fclose="accept",
                  session_handles=None, conn_ids=None, max_std_size=511, max_large_size=4002, fo_refuse_first=0):
-        self.session = session  # 'accept' | 'refuse'
+        self.session = session  # 'accept' | 'refuse' | 'refuse-with-handle'
         self.large_fo = large_fo  # 'accept' | 'refuse08' (service not supported) | 'refuse0109' (invalid size)
         self.std_fo = std_fo  # 'accept' | 'refuse'
         self.fclose = fclose  # 'accept' | 'refuse'
@@ -209,6 +209,9 @@ class Target:
         if self.ep.session is not None:
             self.event("C10/double-register", "RegisterSession on a TCP connection that already has a session")
             return self._err(fr, 0x0001)
+        if self.policy.session == "refuse-with-handle":
+            # a refusal (insufficient memory) whose header nevertheless carries a non-zero session field; nothing is granted
+            return W.build_frame(W.CMD_REGISTER, 0x5A5A0001, fr.body, status=0x0002, context=fr.context)
         if self.policy.session != "accept":
             return self._err(fr, 0x0002)
         handle = self.policy.session_handles[self._sess_i % len(self.policy.session_handles)]
